@@ -41,7 +41,10 @@ pub struct BrCase {
 fn world_strategy() -> impl Strategy<Value = WorldSpec> {
     prop::collection::vec(c04_bank_strategy_pub(), 2..=2).prop_map(|mut banks| {
         for (i, b) in banks.iter_mut().enumerate() {
-            b.init_limit = 0;
+            // the collateral bank keeps its generated collateral-value cap (an initial-weight discount only)
+            if i != 0 {
+                b.init_limit = 0;
+            }
             b.emode_tag = 0;
             b.emode_entries.clear();
             b.isolated = false;
@@ -557,7 +560,10 @@ fn check_c11(p: &Prep, shape: &[&str], stats: &mut Stats) -> Result<(), (String,
     // did some borrow/withdraw succeed without the risk gate holding at that point?
     let mut skipped_at: Option<usize> = None;
     for (i, st) in f.states.iter().enumerate() {
-        if matches!(shape[i], "bBig" | "bSm" | "wBig" | "p:bBig") {
+        // (a withdrawal by the liquidator strictly inside a receivership is C10's business: that bracket is closed by
+        // end_liquidation's maintenance-health comparison, not by the initial-margin check)
+        let in_receivership = f.flags_after.get(i).map(|fl| fl & ACCOUNT_IN_RECEIVERSHIP != 0).unwrap_or(false);
+        if matches!(shape[i], "bBig" | "bSm" | "wBig" | "p:bBig") && !in_receivership {
             if let Some(a) = read_macct(st, &ua) {
                 let h = health(st, &a, Req::Initial, st.now());
                 if let Some(hh) = h.health() {
